@@ -179,9 +179,23 @@ OPERANDS = [
     "following::node()", "following::e", "preceding-sibling::node()", "following-sibling::node()", "..", ".",
     "descendant::e", "descendant-or-self::node()", "*", "@*", "node()", "//e[2]/following-sibling::node()",
     "(//e)[position()<3]", "//e[count(*)>1]", "//e[not(*)]", "//processing-instruction()", "../@*", "//e/..",
-    "preceding::e[1]", "ancestor::e[1]", "//e[position()mod2=0]",
+    "preceding::e[1]", "ancestor::e[1]", "//e[position()=2]",
+    "set:difference(//e,//e[e])", "set:intersection(//e|//@*,//@*|//text())", "set:distinct(//e/@a1)", "set:distinct(//node())",
+    "set:leading(//node(),//e[3])", "set:trailing(//e,//e[2])", "set:difference(//node(),descendant::node())",
+    "set:trailing(//node()|//@*,//@a1)", "//e[set:has-same-node(.,//e[e])]", "set:leading(following::node(),//e[last()])",
     "//namespace::*", "namespace::*", "//e/namespace::*", "//e/@*", "ancestor::e/@*", "//@a1/..", "//namespace::*/..",
 ]
+
+
+def gen_identities(r):
+    """pairs of expressions that must deliver the same list (EXSLT set algebra)"""
+    pool = [e for e in OPERANDS if not e.startswith("set:") and "has-same" not in e and e not in ("/.",)]
+    a, b = r.choice(pool), r.choice(pool)
+    return [(a, "set:difference(%s,%s)|set:intersection(%s,%s)" % (a, b, a, b)),
+            ("set:intersection(%s,%s)" % (a, b), "set:intersection(%s,%s)" % (b, a)),
+            ("set:difference(%s,%s)" % (a, a), "set:difference(%s,%s)" % (b, b)),
+            ("set:intersection(%s,%s)" % (a, a), a),
+            ("set:leading(%s,%s)|set:trailing(%s,%s)" % (a, a, a, a), "(%s)[position()>1]" % a)]
 
 
 def gen_union_shapes(r):
@@ -293,7 +307,7 @@ def gen_cli_case(r, maxnodes):
     spec: None | ('union', [ids]) | ('diff', a, b) | ('inter', a, b) | ('distinct', a) | ('leading', a, b) |
           ('trailing', a, b) | ('same', a, b) | ('key', value) | ('id', [ids])"""
     m = LabDoc(r, "m", r.range(4, maxnodes), True)
-    b = LabDoc(r, "b", r.range(2, max(3, maxnodes // 2)), False)
+    b = LabDoc(r, "b", r.range(2, max(3, maxnodes // 2)), True)
     f = LabDoc(r, "r", r.range(2, 7), False)
     g = LabDoc(r, "s", r.range(2, 6), False)
     queries = []
@@ -312,6 +326,9 @@ def gen_cli_case(r, maxnodes):
     ids = [("x" + r.choice(m.elems)[1:]) if r.chance(7, 8) else "x777" for _ in range(r.range(1, 6))]
     add("id('%s')" % " ".join(ids), ("id", ids))
     add("id(//e/@r)", ("idrefs", None))
+    # IDREFS held by another document are resolved in the document of the context node (XPath 1.0 section 4.1)
+    add("id(document('b.xml')//e/@r)", ("idfrom", "b"))
+    add("id(document('b.xml')//e/@r)|document('b.xml')//e[@r]")
     for _ in range(10):
         e = r.choice(pool)
         ops.append((add(e), e))
@@ -328,6 +345,7 @@ def gen_cli_case(r, maxnodes):
         qb, eb = r.choice(main_elem_ops)
         add("set:difference(%s, %s)" % (ea, eb), ("diff", qa, qb))
         add("set:intersection(%s, %s)" % (ea, eb), ("inter", qa, qb))
+        add("set:has-same-node(%s, %s)" % (ea, eb), ("same", qa, qb))
         cond = r.choice(["@k='v1'", "@k='v0'", "e", "substring(@i,2) mod 2 = 0"])
         qs = add("(%s)[%s]" % (ea, cond))
         add("set:leading(%s, (%s)[%s])" % (ea, ea, cond), ("leading", qa, qs))
@@ -338,7 +356,10 @@ def gen_cli_case(r, maxnodes):
     qk2 = add("//e[e]/@k|//e[@k='v1']/@k")
     add("set:distinct(//e[e]/@k|//e[@k='v1']/@k)", ("distinct", qk2))
     body = []
-    for q, expr, _ in queries:
+    for q, expr, spec_ in queries:
+        if spec_ is not None and spec_[0] == "same":
+            body.append('<xsl:text>&#10;%s: </xsl:text><xsl:value-of select="%s"/>' % (q, xml_attr(expr)))
+            continue
         body.append('<xsl:text>&#10;%s:</xsl:text><xsl:for-each select="%s"><xsl:text> </xsl:text>'
                     '<xsl:apply-templates select="." mode="lab"/></xsl:for-each>' % (q, xml_attr(expr)))
     sheet = SHEET_HEAD % (f.xml, g.xml) + "\n".join(body) + '\n<xsl:text>&#10;</xsl:text>\n</xsl:template>\n</xsl:stylesheet>\n'
